@@ -372,9 +372,12 @@ def run(ctx):
         st = [(t, v, s_) for t, v, s_ in A.assignments(vm_init.node) if A.self_attr(t) == fld]
         ctx.check("R6", vm_init, len(st) >= 1, f"operand-stored:{fld}", f"_VersionMatch stores `{fld}`")
         for t, v, s_ in st:
-            verbatim = isinstance(v, ast.Name) and v.id in vm_init.params()
-            retyped = isinstance(v, ast.Call) and (dotted(v.func) or "").split(".")[-1] in ("Revision",) and len(v.args) == 1 and isinstance(v.args[0], ast.Name)
-            ctx.check("R6", vm_init, verbatim or retyped, f"operand-verbatim:{fld}",
+            RESPELL = {"str", "int", "repr", "format", "float"}
+            STRM = {"strip", "lstrip", "rstrip", "zfill", "replace", "lower", "upper", "split", "partition", "removeprefix", "removesuffix", "join", "format"}
+            respelled = [n for n in ast.walk(v) if (isinstance(n, ast.Call) and ((isinstance(n.func, ast.Name) and n.func.id in RESPELL) or (isinstance(n.func, ast.Attribute) and n.func.attr in STRM)))
+                         or isinstance(n, (ast.JoinedStr, ast.BinOp)) or (isinstance(n, ast.Subscript) and isinstance(n.slice, ast.Slice))]
+            from_param = any(isinstance(n, ast.Name) and n.id in vm_init.params() for n in ast.walk(v))
+            ctx.check("R6", vm_init, from_param and not respelled, f"operand-verbatim:{fld}",
                       f"_VersionMatch keeps the `{fld}` operand as given",
                       f"_VersionMatch stores `{A.unparse(v)}` as its `{fld}` operand: the object handed to ver_cmp is no longer the atom's own "
                       f"version / Revision (a str revision compares as text: -r9 > -r10)", node=s_)
@@ -390,4 +393,11 @@ MUTANTS = [
     {"name": "categorydep-attr", "file": "src/pkgcore/ebuild/restricts.py", "old": 'super().__init__("category", values.StrExactMatch(category, negate=negate))', "new": 'super().__init__("key", values.StrExactMatch(category, negate=negate))', "rule": "R1"},
     {"name": "blocker-adds-restriction", "file": "src/pkgcore/ebuild/atom.py", "old": "        if self.use is not None:\n            r.extend(restricts._parse_nontransitive_use(self.use))", "new": "        if self.use is not None and not self.blocks:\n            r.extend(restricts._parse_nontransitive_use(self.use))", "rule": "R1"},
 ]
-TWINS = []
+MUTANTS += [
+    {"name": "revision-canonicalised-as-text", "file": "src/pkgcore/ebuild/restricts.py", "old": "        self.rev = rev\n", "new": "        self.rev = str(rev).lstrip('0') if rev else rev\n", "rule": "R6"},
+    {"name": "if-missing-not-compared", "file": "src/pkgcore/ebuild/restricts.py", "old": '    __attr_comparison__ = ("vals", "all", "negate", "if_missing")\n', "new": '    __attr_comparison__ = ("vals", "all", "negate")\n', "rule": "R4"},
+    {"name": "negate-lands-on-case-flag", "file": "src/pkgcore/ebuild/restricts.py", "old": "        v = values.StrExactMatch(slot)\n", "new": "        negate = kwds.get('negate', False)\n        v = values.StrExactMatch(slot, negate)\n", "rule": "R5"},
+]
+TWINS = [
+    {"name": "revision-retyped-not-respelled", "file": "src/pkgcore/ebuild/restricts.py", "old": "        self.rev = rev\n", "new": "        self.rev = cpv.Revision(rev) if rev is not None and not isinstance(rev, cpv.Revision) else rev\n"},
+]
